@@ -1,14 +1,14 @@
 """C05 (partial, bounded) — Rust guest bindings carry values across the boundary unchanged: Kani on the real generator's
 output for a probe world, the harness playing the host at the core-ABI boundary (hand-written canonical encodings)."""
 LEVEL = 'other'
-import os
+import os, re
 from vlib import kani
 from vlib.kani import Harness
 from . import rustgen
 
 G = 'generated Rust export trampoline(s) for kani/rustgen_val/probe.wit (crates/rust/src/bindgen.rs emit arms, crates/rust/src/interface.rs generate_guest_export, crates/core/src/abi.rs lift/lower/write_to_memory as instantiated for this type) — '
 FULL = 'one probe world, export direction only'
-HEAP = FULL + '; list/string lengths 0..=2 (list<string>: <= 1 element of <= 1 byte), ASCII strings'
+HEAP = FULL + '; list/string lengths 0..=2 (lists of strings / of records: the list length is fixed per obligation at 0, 1 or 2, element strings <= 1 byte), ASCII strings'
 HARNESSES = [
     Harness('c05_record_unchanged_both_ways', 'value.record', G + 'record { u8, u32 }', bounded=FULL),
     Harness('c05_tuple_unchanged_both_ways', 'value.tuple', G + 'tuple<u8, u64>', bounded=FULL),
@@ -16,15 +16,28 @@ HARNESSES = [
     Harness('c05_result_unchanged_both_ways', 'value.result', G + 'result<u32, u8>', bounded=FULL),
     Harness('c05_flags_and_enum_unchanged_both_ways', 'value.flags_and_enum', G + 'flags, enum', bounded=FULL),
     Harness('c05_variant_numeric_cases_unchanged_both_ways', 'value.variant_numeric_cases', G + 'variant with u32 / u64 / string cases (joined 64-bit-or-pointer slot), numeric cases', bounded=FULL),
+    Harness('c05_f32_in_wide_variant_export_unchanged', 'value.f32_in_wide_variant_export', G + 'variant { f32, u64, f64 } through an export, every bit pattern', bounded=FULL),
+    Harness('c05_f32_in_wide_variant_import_unchanged', 'value.f32_in_wide_variant_import', G.replace('export trampoline(s)', 'import wrapper') + 'variant { f32, u64, f64 } passed to and returned from an import, every bit pattern', bounded=FULL.replace('export direction only', 'import direction')),
     Harness('c05_variant_string_unchanged_both_ways', 'value.variant_string_case', G + 'variant, string case', bounded=HEAP),
     Harness('c05_string_unchanged_both_ways', 'value.string', G + 'string', bounded=HEAP),
     Harness('c05_list_u8_unchanged_both_ways', 'value.list_u8', G + 'list<u8> (canonical list)', bounded=HEAP),
     Harness('c05_list_u32_unchanged_both_ways', 'value.list_u32', G + 'list<u32> (canonical list)', bounded=HEAP),
     Harness('c05_list_of_pairs_unchanged_both_ways', 'value.list_of_tuples', G + 'list<tuple<u8, u32, u8>> (element-wise list: a Rust tuple is not canonical)', bounded=HEAP),
+    Harness('c05_record_with_heap_fields_unchanged_both_ways', 'value.record_with_heap_fields', G + 'record { u16, string, list<u8>, u8 }', bounded=HEAP),
+    Harness('c05_result_with_string_unchanged_both_ways', 'value.result_with_string', G + 'result<string, u32> (pointer-or-i32 joined slot)', bounded=HEAP),
+    Harness('c05_list_of_mixed_records_result_len0', 'value.list_of_mixed_records_result_len0', G + 'list<record { u64, string }> (element size 8+2P: byte part and pointer part), empty result', bounded=HEAP),
+    Harness('c05_list_of_mixed_records_result_len1', 'value.list_of_mixed_records_result_len1', G + 'list<record { u64, string }> (element size 8+2P: byte part and pointer part), 1 element returned', bounded=HEAP),
+    Harness('c05_list_of_mixed_records_param_len1', 'value.list_of_mixed_records_param_len1', G + 'list<record { u64, string }> (element size 8+2P: byte part and pointer part), 1 element sent', bounded=HEAP),
+    Harness('c05_list_of_mixed_records_result_len2', 'value.list_of_mixed_records_result_len2', G + 'list<record { u64, string }> (element size 8+2P: byte part and pointer part), 2 elements returned', bounded=HEAP),
+    Harness('c05_list_of_mixed_records_param_len2', 'value.list_of_mixed_records_param_len2', G + 'list<record { u64, string }> (element size 8+2P: byte part and pointer part), 2 elements sent', bounded=HEAP),
+    Harness('c05_list_of_strings_result_len0', 'value.list_of_strings_result_len0', G + 'list<string> (element-wise list), empty result', bounded=HEAP),
+    Harness('c05_list_of_strings_result_len1', 'value.list_of_strings_result_len1', G + 'list<string> (element-wise list), 1 element returned', bounded=HEAP),
+    Harness('c05_list_of_strings_result_len2', 'value.list_of_strings_result_len2', G + 'list<string> (element-wise list), 2 elements returned', bounded=HEAP),
+    Harness('c05_list_of_strings_param_len1', 'value.list_of_strings_param_len1', G + 'list<string> (element-wise list), 1 element sent', bounded=HEAP),
+    Harness('c05_list_of_strings_param_len2', 'value.list_of_strings_param_len2', G + 'list<string> (element-wise list), 2 elements sent', bounded=HEAP),
 ]
-# about nine minutes of CBMC: thorough tier only
+# nothing is thorough-only since list lengths are fixed per harness
 THOROUGH = [
-    Harness('c05_list_of_strings_unchanged_both_ways', 'value.list_of_strings', G + 'list<string> (element-wise list)', bounded=HEAP),
 ]
 ASSUME = ['PARTIAL and BOUNDED: the claim is about the bindings the real generator produces for ONE probe world (kani/rustgen_val/probe.wit), in the export '
           'direction (host -> lift -> user function -> lower -> host); imports use the same emit arms but their glue is not driven here',
@@ -35,12 +48,31 @@ ASSUME = ['PARTIAL and BOUNDED: the claim is about the bindings the real generat
           'std\'s UTF-8 validation (String::from_utf8) is replaced by a trusted stub and only valid UTF-8 (ASCII) is sent',
           'not covered: imports, async, resources (C07), nested variants/records beyond the probe, fixed-length lists, maps, strings > 2 bytes']
 
+GM = 'generated Rust bindings for kani/rustgen_map/probe.wit with --map-type crate::VecMap (crates/rust/src/bindgen.rs MapLift / MapLower / IterMapKey / IterMapValue / GuestDeallocateMap arms) — '
+MAPB = 'one probe world; the map type is the harness\'s vector of pairs (the generator\'s --map-type option; the default BTreeMap does not get through CBMC); number of entries fixed per obligation at 0, 1 or 2, keys <= 1 ASCII byte'
+MAP_HARNESSES = [
+    Harness('c05_map_result_len0', 'value.map_result_len0', GM + 'map<string, u32> through an export, empty result', bounded=MAPB),
+    Harness('c05_map_result_len1', 'value.map_result_len1', GM + 'map<string, u32> through an export, 1 entry returned', bounded=MAPB),
+    Harness('c05_map_result_len2', 'value.map_result_len2', GM + 'map<string, u32> through an export, 2 entries returned', bounded=MAPB),
+    Harness('c05_map_param_len1', 'value.map_param_len1', GM + 'map<string, u32> through an export, 1 entry sent', bounded=MAPB),
+    Harness('c05_map_param_len2', 'value.map_param_len2', GM + 'map<string, u32> through an export, 2 entries sent', bounded=MAPB),
+]
+
 
 def run(rep, tier):
     rep.assume(*ASSUME)
     d = rustgen.generate(rep, 'rustgen_val', mock=True)
     hs = HARNESSES + (THOROUGH if tier == 'thorough' else [])
-    if tier != 'thorough':
-        rep.notes.append('the list<string> obligation (nested element-wise list, ~9 min of CBMC) runs in the thorough tier only')
+    if os.environ.get('VERIF_ONLY'):   # development aid: run a subset (never used by the registered commands)
+        import re
+        hs = [h for h in hs if re.search(os.environ['VERIF_ONLY'], h.name)]
+    mh = MAP_HARNESSES
+    if os.environ.get('VERIF_ONLY'):
+        mh = [h for h in mh if re.search(os.environ['VERIF_ONLY'], h.name)]
+    if mh:
+        dm = rustgen.generate(rep, 'rustgen_map', extra_args=['--map-type', 'crate::VecMap'], mock=True)
+        kani.run_harnesses(rep, dm, mh, None, 'kani-rustgen', timeout_each=900, harness_file=os.path.join(dm, 'src/lib.rs'), playback_features='values-only', guard=False, canary_id='canary.kani.map')
+    if not hs:
+        return
     kani.run_harnesses(rep, d, hs, None, 'kani-rustgen', timeout_each=900, harness_file=os.path.join(d, 'src/lib.rs'),
                        playback_features='values-only', guard=False)
